@@ -47,6 +47,7 @@ Definition expected_view (o : mobj) (y : msymbol) : sym_view :=
    (match my_value y with Some _ => option_map str_bytes (my_section y) | None => None end),
    (match my_value y, my_section y with
     | Some v, Some sn => match obj_get_section o sn with Ok sec => v + ms_addr sec | _ => v end
+    | Some v, None => v          (* absolute symbol: st_shndx = SHN_ABS, value unrelocated *)
     | _, _ => 0 end),
    my_size y).
 Definition ordered_symbols (o : mobj) : list msymbol :=
@@ -94,6 +95,9 @@ Definition segment_matches (bs : list Z) (ph : phdr) (im : mimage) : bool :=
   | Ok d => (p_type ph =? 1) && (p_vaddr ph =? mi_addr im) && (p_paddr ph =? mi_addr im)
             && (p_filesz ph =? len d) && (p_memsz ph =? len d)
             && ozl_eqb (slice bs (p_offset ph) (p_filesz ph)) (Some d)
+            (* gABI congruence of p_offset and p_vaddr: guaranteed for page-aligned images, and for all images
+               once write_images pads (fixes/C17-segment-congruence.diff, probed into Tab_elf.segments_congruent) *)
+            && (segment_congruent ph || negb (segments_congruent || (mi_addr im mod page_size =? 0)))
   | _ => false
   end.
 Definition segments_ok (bs : list Z) (p : parsed) (o : mobj) (typ : string) : bool :=
